@@ -35,7 +35,15 @@ CONSTANTS MaxLen,      \* data arrays of length 1..MaxLen
                        \* object that caches it and stores the new limits before an empty window raises
           ScaleNs,     \* scale cases: numbers of data (across and at the block boundaries of the engines)
           SmallNs,     \*   numbers of data small enough to expand: the scale law is CHECKED on them
-          ScaleThin    \*   scale cases are thinned 1 : ScaleThin (covering design)
+          ScaleThin,   \*   scale cases are thinned 1 : ScaleThin (covering design)
+          WLens, WVals,  \* world sessions: lengths / lattice values of the data objects
+          WDepth,      \*   steps per session
+          WThin,       \*   the LAST step of a session is thinned 1 : WThin (covering design)
+          WXColl, WXRest,  \* export: sessions that contain a designed collision are thinned 1 : WXColl, the others 1 : WXRest
+          WMemo,       \*   process-level memo of the sort index kept by histogram(): "none" | "content" (keyed by
+                       \*   the data values: faithful) | "ro_id" (keyed by object identity, dropped when the
+                       \*   object dies: deviating) | "id" (keyed by identity only: deviating)
+          WShare       \*   TRUE: a deviating memo that hands out its own result arrays (self-test)
 
 VARIABLES phase, c, st, ob
 vars == <<phase, c, st, ob>>
@@ -58,7 +66,7 @@ SrepSeq   == <<"pyfloat", "pyint", "npf8", "npi8">>
 RepsFor(n) == IF n = 1 THEN RepSeq \o ScalarSeq ELSE RepSeq
 
 B2I(b) == IF b THEN 1 ELSE 0
-RECURSIVE WSum(_, _)
+RECURSIVE WSum(_, _), WLastCall(_, _)
 WSum(x, i) == IF i > Len(x) THEN 0 ELSE x[i] * (2 * i - 1) + WSum(x, i + 1)
 CaseHash(x, mode, b, mn, mx) ==
     WSum(x, 1) + 3 * b + (IF mode = "binsize" THEN 0 ELSE 11)
@@ -227,6 +235,123 @@ ObjCallX ==
           /\ ob' = [ob EXCEPT !.calls = Append(@, cl)]
     /\ UNCHANGED <<phase, c, st>>
 
+\* ---- the process as a world machine ---------------------------------------------------------------
+\* Two data objects alive in one process (the second starts as the reversal of the first: related inputs),
+\* calls of the convenience function / fresh Binner objects on either, and caller steps: `mutate` (the caller
+\* rewrites the buffer behind object 1 - a writable base under a read-only view, a second memmap -, the object
+\* stays the same), `replace` (object 1 is dropped and a new one created, very likely at the same address) and
+\* `scribble` (the caller overwrites the arrays the previous call returned).  Implementation state of the
+\* process (kept in `ob`): memo = per object the remembered sort index (with the values it was computed from),
+\* keep = the result arrays the previous call returned together with its arguments.
+\* The kind of object (read-only view, broadcast, memmap, buffer, writable, list ...) and the entry point of
+\* each call are carried as names for the adapter (covering design); no value depends on them.
+WKindSeq == <<"roview", "bcast", "memmap", "robuf", "rostrided", "writable", "list", "rofield">>
+WSpecSeq == <<<<"binsize", 1>>, <<"nbin", 2>>, <<"binsize", 2>>, <<"nbin", 3>>>>
+WLimSeq  == <<<<Absent, Absent>>, <<2, Absent>>, <<Absent, 3>>, <<2, 3>>>>
+NoMemo == [s |-> <<>>, x |-> <<>>]
+NoKeep == [slot |-> 0, x |-> <<>>, key |-> <<>>, val |-> NoRes]
+
+WRevSeq(x) == [i \in 1..Len(x) |-> x[Len(x) + 1 - i]]
+WRot(x)    == [i \in 1..Len(x) |-> x[(i % Len(x)) + 1]]
+WConst(x)  == [i \in 1..Len(x) |-> x[Len(x)]]
+WMuts(x)   == {WRevSeq(x), WRot(x), WConst(x)}
+
+WNoStep == [op |-> "scribble", slot |-> 0, x |-> <<>>, mode |-> "none", b |-> 0, hasmin |-> FALSE, min |-> 0,
+            hasmax |-> FALSE, max |-> 0, rev |-> FALSE, entry |-> "none"]
+\* the calls tried at position k: a covering design over (data, position, slot) picks 4 of the 16 (bin specification,
+\* limits) pairs; entry point and rev= follow independent linear forms
+WCalls(wd, k) ==
+    {LET l == CHOOSE q \in 1..4 : (q + m + k + s + WSum(wd.objs[1], 1)) % 4 = 0 IN
+     [WNoStep EXCEPT !.op = "call", !.slot = s, !.mode = WSpecSeq[m][1], !.b = WSpecSeq[m][2],
+        !.hasmin = WLimSeq[l][1] # Absent, !.min = IF WLimSeq[l][1] = Absent THEN 0 ELSE WLimSeq[l][1],
+        !.hasmax = WLimSeq[l][2] # Absent, !.max = IF WLimSeq[l][2] = Absent THEN 0 ELSE WLimSeq[l][2],
+        !.rev = (m + k) % 3 # 0,
+        !.entry = EntrySeq[((WSum(wd.objs[1], 1) + m + 2 * l + k) % Len(EntrySeq)) + 1]]
+       : s \in 1..2, m \in 1..4}
+\* ... and calls DESIGNED to collide: the last call once more, and the last call on the other object
+WLastCall(wd, k) == IF k = 0 THEN {} ELSE IF wd.steps[k].op = "call" THEN {wd.steps[k]} ELSE WLastCall(wd, k - 1)
+WRepeats(wd) == UNION {{t, [t EXCEPT !.slot = 3 - t.slot]} : t \in WLastCall(wd, Len(wd.steps))}
+WCallerSteps(wd) ==
+    {[WNoStep EXCEPT !.op = "mutate", !.slot = 1, !.x = y] : y \in WMuts(wd.cur[1])} \cup
+    {[WNoStep EXCEPT !.op = "replace", !.slot = 1, !.x = y] : y \in WMuts(wd.cur[1])} \cup
+    (IF Len(wd.steps) > 0 /\ wd.steps[Len(wd.steps)].op = "call" THEN {WNoStep} ELSE {})
+WStepHash(t) == t.slot + 3 * t.b + (IF t.mode = "nbin" THEN 7 ELSE 0) + 5 * B2I(t.hasmin) + 11 * B2I(t.hasmax)
+                + (IF t.op = "call" THEN 0 ELSE IF t.op = "mutate" THEN 13 ELSE IF t.op = "replace" THEN 17 ELSE 19)
+                + (IF t.x = <<>> THEN 0 ELSE WSum(t.x, 1))
+WThinOK(wd, t) ==
+    \/ Len(wd.steps) + 1 < WDepth
+    \/ (WSum(wd.objs[1], 1) + 3 * WStepHash(t)
+        + VSum([k \in 1..Len(wd.steps) |-> (2 * k + 5) * WStepHash(wd.steps[k])])) % WThin = 0
+
+WNew ==
+    /\ phase = "start"
+    /\ \E n \in WLens : \E x \in [1..n -> WVals] :
+          LET h == WSum(x, 1) + n IN
+          ob' = [objs |-> <<x, WRevSeq(x)>>, cur |-> <<x, WRevSeq(x)>>,
+                 kinds |-> <<WKindSeq[(h % Len(WKindSeq)) + 1], WKindSeq[((h \div 3) % Len(WKindSeq)) + 1]>>,
+                 memo |-> <<NoMemo, NoMemo>>, keep |-> NoKeep, steps |-> <<>>, res |-> NoRes]
+    /\ phase' = "world" /\ UNCHANGED <<c, st>>
+
+\* the pass of one call over a given sort index s of the data x (s is stale if a deviating memo supplied it)
+WRun(x, s, t) ==
+    LET lo == IF t.hasmin THEN t.min ELSE x[s[1]]
+        hi == IF t.hasmax THEN t.max ELSE x[s[Len(x)]]
+        w  == SelectSeq(s, LAMBDA j : lo <= x[j] /\ x[j] <= hi)
+        cc == [x |-> x, mode |-> t.mode, b |-> t.b, hasmin |-> TRUE, min |-> lo, hasmax |-> TRUE, max |-> hi]
+    IN IF w = <<>> THEN ErrRes
+       ELSE IF lo > hi \/ ~Runnable(cc) THEN SkipRes
+       ELSE HPassRun(cc, w, t.rev)
+WGarbage(r) == [r EXCEPT !.hist = [i \in DOMAIN r.hist |-> 0], !.rev = [i \in DOMAIN r.rev |-> 0]]
+
+WApply(wd, t) ==
+    LET log == [wd EXCEPT !.steps = Append(@, t)] IN
+    IF t.op = "mutate" THEN [log EXCEPT !.cur[t.slot] = t.x]                 \* no code runs: the memo cannot notice
+    ELSE IF t.op = "replace"
+    THEN [log EXCEPT !.cur[t.slot] = t.x,
+                     !.memo[t.slot] = IF WMemo = "ro_id" THEN NoMemo ELSE @]   \* the weak reference expires
+    ELSE IF t.op = "scribble"
+    THEN [log EXCEPT !.keep.val = IF WShare THEN WGarbage(@) ELSE @]           \* the caller's arrays; shared only if deviating
+    ELSE LET x    == wd.cur[t.slot]
+             m    == wd.memo[t.slot]
+             hit  == /\ m.s # <<>> /\ Len(m.s) = Len(x)
+                     /\ \/ WMemo \in {"ro_id", "id"}
+                        \/ WMemo = "content" /\ m.x = x
+             s    == IF hit THEN m.s ELSE VStableArgsort(x)
+             key  == <<t.mode, t.b, t.hasmin, t.min, t.hasmax, t.max, t.rev>>
+             res  == IF WShare /\ wd.keep.slot = t.slot /\ wd.keep.x = x /\ wd.keep.key = key THEN wd.keep.val
+                     ELSE WRun(x, s, t)
+         IN [log EXCEPT !.memo[t.slot] = IF WMemo = "none" THEN NoMemo ELSE [s |-> s, x |-> x],
+                        !.keep = [slot |-> t.slot, x |-> x, key |-> key, val |-> res],
+                        !.res = res]
+
+WStep ==
+    /\ phase = "world" /\ Len(ob.steps) < WDepth
+    /\ \E t \in WCalls(ob, Len(ob.steps) + 1) \cup WRepeats(ob) \cup WCallerSteps(ob) :
+          /\ WThinOK(ob, t)
+          /\ ob' = WApply(ob, t)
+    /\ UNCHANGED <<phase, c, st>>
+
+\* a designed collision: an object histogrammed again after the caller changed its buffer, replaced it, or
+\* overwrote results in between
+WCollides(wd) ==
+    \E k \in 2..Len(wd.steps) : \E j \in 1..(k - 1) :
+        /\ wd.steps[k].op = "call" /\ wd.steps[j].op = "call" /\ wd.steps[j].slot = wd.steps[k].slot
+        /\ \E q \in (j + 1)..(k - 1) : wd.steps[q].op # "call"
+WSessHash(wd) == WSum(wd.objs[1], 1) + VSum([k \in 1..Len(wd.steps) |-> (2 * k + 5) * WStepHash(wd.steps[k])])
+WExported(wd) == WSessHash(wd) % (IF WCollides(wd) THEN WXColl ELSE WXRest) = 0
+\* enumeration only: the same sessions without running the mechanism (export / simulation)
+WStepX ==
+    /\ phase = "world" /\ Len(ob.steps) < WDepth
+    /\ \E t \in WCalls(ob, Len(ob.steps) + 1) \cup WRepeats(ob) \cup WCallerSteps(ob) :
+          LET nw == [ob EXCEPT !.steps = Append(@, t),
+                              !.cur = IF t.op \in {"mutate", "replace"} THEN [@ EXCEPT ![t.slot] = t.x] ELSE @]
+          IN /\ WThinOK(ob, t)
+             /\ (Len(nw.steps) = WDepth) => WExported(nw)          \* covering design of the export
+             /\ ob' = nw
+    /\ UNCHANGED <<phase, c, st>>
+
+WSess(wd) == [objs |-> wd.objs, kinds |-> wd.kinds, steps |-> wd.steps]
+
 \* ---- scale cases ---------------------------------------------------------------------------------
 \* few distinct values 1..k, value j repeated mult[j] times, in three arrangements; numbers of data
 \* across and at the block boundaries; bin specifications that give one / two values per bin, and a
@@ -280,11 +405,13 @@ Rle(x, s) == IF s = <<>> THEN <<>>
                       n == CHOOSE m \in 1..Len(s) : (\A q \in 1..m : x[s[q]] = v) /\ (m = Len(s) \/ x[s[m + 1]] # v)
                   IN <<[v |-> v, len |-> n, asc |-> \A q \in 1..(n - 1) : s[q] < s[q + 1]]>> \o Rle(x, SubSeq(s, n + 1, Len(s)))
 
-Next == ChooseData \/ ChooseSpec \/ Begin \/ Step \/ Fill \/ ObjNew \/ ObjCall \/ ChooseScale
+Next == ChooseData \/ ChooseSpec \/ Begin \/ Step \/ Fill \/ ObjNew \/ ObjCall \/ ChooseScale \/ WNew \/ WStep
 
-NextExport == ChooseData \/ ChooseSpec \/ ObjNew \/ ObjCallX \/ ChooseScale   \* enumeration only (export run)
+NextExport == ChooseData \/ ChooseSpec \/ ObjNew \/ ObjCallX \/ ChooseScale \/ WNew \/ WStepX   \* enumeration only (export run)
 
 NextDeep == ObjNew \/ ObjCallX               \* long random histories (tlc -simulate)
+NextWorld == WNew \/ WStep                   \* the world machine alone (self-tests)
+NextWorldDeep == WNew \/ WStepX              \* long random sessions (tlc -simulate)
 
 Spec == Init /\ [][Next]_vars
 
@@ -335,9 +462,17 @@ ObjRefines == (phase = "obj" /\ Len(ob.calls) > 0 /\ ob.res.err \notin {"skip", 
     HOStepFailing(HistOf(ob), Len(ob.calls), ob.res) = {}
 CacheSound == phase = "obj" => (ob.cache = <<>> \/ ob.cache = VStableArgsort(ob.x))
 
+\* the world: every call's outcome is an outcome the property allows for ITS arguments as they are at the time of
+\* the call - whatever happened in the process before (the faithful memo satisfies it, the deviating ones do not)
+WorldRefines == (phase = "world" /\ Len(ob.steps) > 0 /\ ob.steps[Len(ob.steps)].op = "call"
+                 /\ ob.res.err \notin {"skip", "noresult"}) =>
+    HWStepFailing(WSess(ob), Len(ob.steps), ob.res) = {}
+WorldCurOK == phase = "world" => \A s \in 1..2 : ob.cur[s] = HWContents(WSess(ob), s, Len(ob.steps))
+
 \* ---- export -------------------------------------------------------------------------
 Export == /\ (DoExport /\ phase = "case") => PrintT(<<"CASE", ToJson(c)>>)
           /\ (DoExport /\ phase = "scale" /\ ScaleN(c) \notin SmallNs) => PrintT(<<"SCALE", ToJson(c)>>)
+          /\ (DoExport /\ phase = "world" /\ Len(ob.steps) = WDepth) => PrintT(<<"WORLD", ToJson(WSess(ob))>>)
           /\ (DoExport /\ phase = "obj" /\ Len(ob.calls) = HDepth) =>
                 PrintT(<<"HIST", ToJson([x |-> ob.x, hasw |-> ob.hasw, rep |-> ob.rep, wrep |-> ob.wrep, calls |-> ob.calls])>>)
 =============================================================================
